@@ -600,7 +600,10 @@ func init() {
 		Rule: "12 configurations ({encrypted footer, signed plaintext footer} x {footer key only, per-column key} x {v2 small pages; v1+snappy+AAD prefix; bloom filters + 2 row groups}) x 6 modes: round trip + seek histories (read 0/1/5/20 rows, SeekToRow(every 7th row), read) on a 150-row many-page file; leak scan of the raw bytes for every value token and token prefix; wrong / missing footer and column keys; EVERY byte of every module, of the footer and of its signature flipped; every ordered pair of equal-length modules transplanted; modules transplanted from a twin file with another file identifier and from a file written with the same EncryptionConfig object, modules truncated, footer signature stripped / zeroed; " +
 			"oracle: a tampered or wrongly keyed file never opens and reads without error, rows returned before an error are a prefix of the original; evaluation = one tampered file or seek history",
 		Assumptions: []string{"AES-GCM nonces are random: no oracle depends on ciphertext bytes; module boundaries are found by walking the 4-byte length prefixes from offset 4 to the footer"},
-		Bound:       func(string) int { return 0 },
-		Run:         c18Run,
+		// 8 workers: the library allocates what a tampered module length prefix
+		// asks for (up to 2 GiB at a time) before it reads the module
+		Shards: 8,
+		Bound:  func(string) int { return 0 },
+		Run:    c18Run,
 	})
 }
